@@ -582,13 +582,20 @@ impl Xot {
         if !self.is_element(node) {
             return Err(Error::NotElement(node));
         };
-        let mut fullname_serializer = FullnameSerializer::new(self, vec![]);
+        // start from the prefixes in scope, like serialization of this node does
+        let mut fullname_serializer =
+            FullnameSerializer::new(self, self.namespaces_in_scope(node).collect());
+        // prefixes that are in scope or declared anywhere below: a generated
+        // prefix must not override or be shadowed by any of them
+        let mut used_prefix_ids: HashSet<PrefixId> =
+            self.namespaces_in_scope(node).map(|(p, _)| p).collect();
         let mut missing_namespace_ids = HashSet::default();
         for edge in self.traverse(node) {
             match edge {
                 NodeEdge::Start(node) => {
                     let element = self.element(node);
                     if let Some(element) = element {
+                        used_prefix_ids.extend(self.namespaces(node).keys());
                         fullname_serializer.push(self.namespace_declarations(node));
                         let element_fullname =
                             fullname_serializer.element_fullname(element.name_id);
@@ -614,9 +621,17 @@ impl Xot {
             }
         }
         let mut prefixes_to_add = HashMap::default();
-        for (i, namespace_id) in missing_namespace_ids.iter().enumerate() {
-            let prefix = format!("n{}", i);
-            let prefix_id = self.add_prefix(&prefix);
+        let mut i = 0;
+        for namespace_id in missing_namespace_ids.iter() {
+            // take the next "n{i}" that is not in use
+            let prefix_id = loop {
+                let prefix = format!("n{}", i);
+                i += 1;
+                let prefix_id = self.add_prefix(&prefix);
+                if !used_prefix_ids.contains(&prefix_id) {
+                    break prefix_id;
+                }
+            };
             prefixes_to_add.insert(prefix_id, namespace_id);
         }
         let mut namespaces = self.namespaces_mut(node);
